@@ -1125,6 +1125,17 @@ expand_manifests(string &expr, bool expand_undefined,
         }
       }
     }
+    else if (isdigit(expr[p])) {
+      // A preprocessing number.  The letters in it (0x1F, 10L, 0b101) and
+      // its digit separators (1'000) belong to the number; they are neither
+      // identifiers nor the start of a character constant.
+      p++;
+      while (p < expr.size() &&
+             (isalnum(expr[p]) || expr[p] == '_' || expr[p] == '.' ||
+              (expr[p] == '\'' && p + 1 < expr.size() && isalnum(expr[p + 1])))) {
+        p++;
+      }
+    }
     else if (expr[p] == '\'' || expr[p] == '"') {
       // Skip the next part until we find a closing quotation mark.
       char quote = expr[p];
